@@ -293,6 +293,13 @@ def check_C10(chk):
             pl = 'es'[(n + ci) % 2]
             src = f"@{r.randint(1, 2**40)},{n},{cls}" if n > 1500 else (datav(r, n, cls) if n else ('null' if ci % 2 else '-'))
             lines.append(f"hash id=h{n}{cls} m={src} pl={pl} off={off},{(off + 3) % 8} pf={r.choice([0, 255, 165])}")
+    # value classes at the end / start of the message (padding-like: 00, runs of 00, 80 00.., all zero) around the block sizes
+    for n in (1, 15, 16, 17, 31, 32, 33, 48, 64, 65):
+        for cls in 'zet8l':
+            lines.append(f"hash id=v{n}{cls} m={datav(r, n, cls)} off={n % 8},{(n + 1) % 8}")
+    # in place: the digest replaces the start of the message (the repository's own tests use the one-shot functions this way)
+    for n in (0, 1, 16, 31, 32, 33, 64, 100, 257):
+        lines.append(f"hash id=ip{n} m={datav(r, n) if n else '-'} inplace=1")
     groups = chunks(lines, 12)
     cfgs = ['prod', 'alt3', 'dbg', 'shared', 'portable', 'os', 'uchar'] + (['alt', 'o2', 'alt0'] if chk.thorough else [])
     execs, plans, seen = [], [], set()
@@ -446,6 +453,8 @@ def check_C11(chk):
             g.append(f"hfinal id=L{bi}-{si}-f obj={si} op=1")
             groups.append(g)
     # the empty message given as NULL/0 and as a valid pointer/0, one-shot and streamed, interpreted
+    # in place: the one-shot digest replaces the start of the message it was computed from
+    groups.append([f"hash id=ip{n} m={hx(r.bytes(n))} inplace=1 learn=0" for n in (1, 16, 31, 32, 33, 70)])
     groups.append([f"hash id=nul-one m=null learn=0 pf=0", f"hash id=nul-one2 m=null learn=0 pf=255", f"hash id=emp-one m=- learn=0",
                    "hinit id=nul-i obj=3", "hupdate id=nul-u obj=3 d=null op=0", "hfinal id=nul-f obj=3 op=0",
                    "hinit id=nul-i2 obj=4", "hfinal id=nul-f2 obj=4 op=0"])
@@ -562,6 +571,18 @@ def check_C12(chk):
         if gi % 5 == 0:
             g.append(f"hmfree id=g{gi}-x obj={o}")
         groups.append(g)
+    # value classes of the key (ends in 00 / a run of 00 / 80 00.. / all zero / begins with 00) for every key-length class,
+    # one-shot and streamed; in-place one-shot (tag replaces the start of the message)
+    for kl in (1, 31, 32, 33, 63, 64, 65, 66, 80, 100, 128, 129, 200):
+        for ci, cls in enumerate('zet8l'):
+            k = r.bytes(kl, cls)
+            m = r.bytes([0, 5, 16, 40, 70][ci], 'r8e'[kl % 3])
+            o = (kl + ci) % 8
+            groups.append([f"hmac id=vk{kl}{cls}-one k={hx(k)} m={hx(m) if m else '-'}",
+                           f"hminit id=vk{kl}{cls}-i obj={o} k={hx(k)}", f"hmupdate id=vk{kl}{cls}-u obj={o} d={hx(m) if m else '-'}",
+                           f"hmfinal id=vk{kl}{cls}-f obj={o} k={hx(k)}"])
+    for kl, ml in ((0, 0), (5, 1), (32, 32), (64, 33), (65, 40), (100, 64), (200, 100)):
+        groups.append([f"hmac id=ip{kl}-{ml} k={datav(r, kl) if kl else '-'} m={datav(r, ml) if ml else '-'} inplace=1"])
     execs = run_exec_groups(exe, groups)
     from fam_cipher import kat_program_traces
     kx = kat_program_traces(chk, ['TinyJAMBU-HMAC'], 0.03 if chk.thorough else 0.003)
@@ -594,6 +615,13 @@ def check_C13(chk):
         salt = r.bytes(s['slen']) if s['slen'] else None
         g.append(f"hkdf id=o{gi} len={s['len']} key={datav(r, s['klen'])} salt={hx(salt) if salt else ('null' if gi % 2 else '-')} "
                  f"info={datav(r, s['ilen'])} off={gi % 8} pf={r.choice([0, 255, 165])}")
+    groups.extend(chunks(g, 3))
+    # value classes of salt and key (the salt is the HMAC key of extract: its length classes 64/65 matter)
+    g = []
+    for sl in (1, 32, 33, 64, 65, 80, 100, 129):
+        for ci, cls in enumerate('zet8l'):
+            g.append(f"hkdf id=vs{sl}{cls} len={[1, 32, 33, 40, 64][ci]} key={datav(r, [5, 16, 32, 65, 100][ci], 'rte'[sl % 3])} salt={datav(r, sl, cls)} "
+                     f"info={datav(r, ci, 'e')}")
     groups.extend(chunks(g, 3))
     # empty salt = 32 zero bytes: same key, both salts, outputs must both match the spec (hence each other)
     key = r.bytes(20)
@@ -675,6 +703,10 @@ def check_C14(chk):
         pw = r.bytes(s['plen'], 'rh'[gi % 2])
         lines.append(f"pbkdf2 id=p{gi} len={s['len']} count={s['count']} pw={hx(pw) if pw else ('null' if gi % 2 else '-')} "
                      f"salt={datav(r, s['slen']) if s['slen'] else ('null' if gi % 3 == 0 else '-')} off={gi % 8} pf={r.choice([0, 255, 165])}")
+    # value classes of the password (the HMAC key: ends in 00 / run of 00 / 80 00.. / all zero / begins with 00) and of the salt
+    for pl in (1, 32, 63, 64, 65, 72, 100, 129):
+        for ci, cls in enumerate('zet8l'):
+            lines.append(f"pbkdf2 id=vp{pl}{cls} len={[20, 32, 33, 40, 64][ci]} count={1 + (pl + ci) % 3} pw={datav(r, pl, cls)} salt={datav(r, [0, 4, 8, 16, 33][ci], 'ret'[pl % 3]) if ci else '-'}")
     # prefix property and exact length: the same parameters at several lengths
     pw, salt = datav(r, 11), datav(r, 9)
     for n in (0, 1, 31, 32, 33, 64, 65, 100):
